@@ -107,13 +107,14 @@ def fixParts (f : Bytes) : Option (Bytes × Bytes × Bytes) :=
   | _ => none
 
 /-- **well-formed FIX frame** (as far as framing is concerned): `8=ver␁9=n␁` followed by exactly `n` bytes that start with
-    `35=` and 7 more bytes (the `10=xxx␁` trailer); `ver` contains no `=`; `n` is written in decimal digits.  (That the first
+    `35=` and 7 more bytes (the `10=xxx␁` trailer); `ver` contains no `=`; `n` is written in (at most 4300) decimal digits.  (That the first
     `35=` of such a frame is its MsgType field is a consequence: `find_header_none`.) -/
 def wfFixFrame (f : Bytes) : Bool :=
   match fixParts f with
   | some (ver, ds, body) =>
       ver.all (· != 61) && !ds.isEmpty && ds.all isDigit && tag35.isPrefixOf body
       && body.length == digitsVal ds + 7
+      && decide (ds.length ≤ 4300)        -- beyond that CPython's `int()` refuses the text (int_max_str_digits); not modelled
   | none => false
 
 /-! ### the reader machine -/
